@@ -103,16 +103,30 @@ func runC16(w *World, r *Report, tier string) {
 		}
 	})
 	r.Check(okChain, "O2", "xmpp.(*XMPPTransport).Connect#result", w.pos(conn.Pos()), "Connect does not return StartStream's stream id", "returns t.StartStream()")
-	okSS := false
-	allInstrs(ss, func(in ssa.Instruction) {
-		if rt, ok := in.(*ssa.Return); ok && isNilConst(rt.Results[1]) {
-			if ex, ok := rt.Results[0].(*ssa.Extract); ok && ex.Index == 0 {
-				if c, ok := ex.Tuple.(*ssa.Call); ok && w.callKey(c) == "stanza.InitStream" {
-					okSS = true
-				}
+	// on every path of StartStream that reports success, the id returned is the one InitStream extracted
+	okSS, nSS := true, 0
+	if err := walkPaths(entryLoc(ss), nil, nil, 20000, func(path []ssa.Instruction, end pathEnd) {
+		rt, ok := path[len(path)-1].(*ssa.Return)
+		if !ok || len(rt.Results) != 2 {
+			return
+		}
+		res := rres(path, rt)
+		if !isNilConst(res[1]) {
+			return
+		}
+		nSS++
+		one := false
+		if ex, ok := res[0].(*ssa.Extract); ok && ex.Index == 0 {
+			if c, ok := ex.Tuple.(*ssa.Call); ok && w.callKey(c) == "stanza.InitStream" {
+				one = true
 			}
 		}
-	})
+		if !one {
+			okSS = false
+		}
+	}); err != nil || nSS == 0 {
+		okSS = false
+	}
 	r.Check(okSS, "O2", "xmpp.(*XMPPTransport).StartStream#result", w.pos(ss.Pos()), "StartStream does not return the id InitStream extracted", "returns InitStream's id with a nil error")
 	// InitStream: every non-empty value of the result is attr.Value under attr.Name.Local == "id"
 	is := w.Func("stanza.InitStream")
